@@ -55,6 +55,25 @@ def _equal_found(fc, new, vec):
     return False
 
 
+def _vec_root(fn, op):
+    """the vector variable a receiver is (a view of): through moves, reborrows and deref / deref_mut / as_mut_slice calls"""
+    seen = set()
+    while op is not None:
+        l = A.root_local(fn, op)
+        if l is None or l in seen:
+            return l
+        seen.add(l)
+        ds = [d for d in fn.defs().get(l, []) if d[2] != "partial"]
+        if fn.locals[l].get("user") or fn.is_param(l) or len(ds) != 1 or ds[0][2] != "call":
+            return l
+        t = fn.blocks[ds[0][0]]["term"]
+        if (t.get("callee") or "").rsplit("::", 1)[-1] in ("deref", "deref_mut", "as_mut_slice", "as_slice", "as_mut", "borrow_mut") and t.get("args"):
+            op = t["args"][0]
+        else:
+            return l
+    return None
+
+
 def run(ctx):
     prog = ctx.prog
     ctx.rule("C12.1", "merge_zrs_helper: a record is pushed only if no equal record is present; a missing type takes the whole vector")
@@ -124,6 +143,23 @@ def run(ctx):
     calls = [zmr.call_expr(t, b) for b, t in A.call_blocks(zm, A.name_is(Z + "merge_zrs_helper"))]
     ctx.check(len(calls) >= 2 and len(wc_stores) >= 1, "C12.2", "ZoneRecords::merge:wildcard-sinks",
               "wildcards are merged into existing ones or adopted", "wildcards of `other` have %d merge call(s) and %d adopting store(s)" % (len(calls), len(wc_stores)), zm.loc())
+
+    # a store to self.wildcards never loses wildcards this node already has: it happens only where self.wildcards is None,
+    # and what is stored is Some(the other node's wildcards)
+    zmc = A.Conds(zm, zmr)
+    for n_, w in enumerate(wc_stores):
+        val = A.peel(A.deep_payload(zmr.rvalue(w[3]["rv"], (w[0], w[1]))))
+        ok_val = val[0] == "agg" and val[2] == "Some" and (A.path_str(A.deep_payload(dict(val[3])["0"])) or "").startswith("param2.wildcards")
+        def mine_none(fc):
+            if fc[0] != "is" or fc[1] != "None":
+                return False
+            x = A.peel(fc[2])
+            while x[0] == "call" and x[2] and (x[1].endswith("::as_mut") or x[1].endswith("::as_ref") or x[1].endswith("::as_deref_mut")):
+                x = A.peel(x[2][0])
+            return A.path_str(x) == "param1.wildcards"
+        ok_g = zmc.guarded(w[0], mine_none)[0]
+        ctx.check(ok_val and ok_g, "C12.2", "ZoneRecords::merge:wildcards-adopted#%d" % n_, "self.wildcards = Some(other's wildcards), only where self has none",
+                  "self.wildcards is overwritten with %s%s" % (A.show(val)[:80], "" if ok_g else " where it may already hold wildcards"), zm.loc(w[0]))
 
     # ---------------------------------------------------------------- C12.3
     soa_w = [w for w in A.who_writes(prog, Z + "Zone", "soa") if w[3] == "store"]
@@ -252,6 +288,15 @@ def run(ctx):
     apps = [lzr.call_expr(t, b) for b, t in A.vec_tail_appends(lz)]
     ok = len(apps) == 2 and all(A.calls_in(e[2][1], lambda n: n == FS + "get_files_from_dir") for e in apps)
     ctx.check(ok, "C12.5", "loader:dirs-appended", "each directory's sorted listing is appended", "directory listings are not appended to the path lists", lz.loc())
+    # ... and stay in that order: the path lists are only ever appended to (no sort / dedup / reverse / removal), so
+    # "later file" means later in the configured sequence
+    list_roots = {_vec_root(lz, t["args"][0]) for b, t in A.vec_tail_appends(lz)} - {None}
+    REORDER = ("sort", "sort_unstable", "sort_by", "sort_by_key", "sort_unstable_by", "sort_unstable_by_key", "sort_by_cached_key", "dedup", "dedup_by", "dedup_by_key",
+               "reverse", "swap", "swap_remove", "remove", "retain", "retain_mut", "truncate", "clear", "drain", "pop", "insert", "rotate_left", "rotate_right",
+               "split_off", "resize", "fill", "select_nth_unstable")
+    reorder = [(b, t) for b, t in lz.calls() if (t.get("callee") or "").rsplit("::", 1)[-1] in REORDER and t.get("args") and _vec_root(lz, t["args"][0]) in list_roots]
+    ctx.check(len(list_roots) == 2 and not reorder, "C12.5", "loader:lists-only-appended", "the two path lists are only appended to",
+              "a path list is reordered / shortened by %s" % [(t.get("callee") or "").rsplit("::", 1)[-1] for b, t in reorder], lz.loc(reorder[0][0]) if reorder else lz.loc())
     revs = [t for _, t in lz.calls() if (t.get("callee") or "").endswith("Iterator::rev")]
     ctx.check(not revs, "C12.5", "loader:forward-iteration", "all lists are consumed front to back", "a list is iterated in reverse", lz.loc())
     zi = prog.fn(Z + "Zones::insert_merge")
